@@ -68,6 +68,18 @@ Section Keep.
     destruct (_ && _); [apply Q|]. destruct (prefix_eqb c (host32 0)); [apply keepf_refl|apply Q].
   Qed.
 
+  Lemma keepf_on_wep_forced : forall s id cs, (forall s x, fld (set_weps s x) = fld s) -> (forall r w, proj (with_wep r w) = proj r) ->
+    keepf s (on_wep_forced s id cs).
+  Proof.
+    intros s id cs FW Hf. rewrite on_wep_forced_eq. cbv zeta.
+    set (old := match aget N.eqb (s_weps s) id with Some l => l | None => [] end).
+    assert (R : keepf s (fold_left wep_rem old (fold_left wep_add cs s))).
+    { apply (keepf_trans _ (fold_left wep_add cs s)).
+      - apply keepf_fold. intros s0 x. unfold wep_add. eapply keepf_trans; [apply keepf_upd; intros r; apply Hf|apply keepf_nr_add].
+      - apply keepf_fold. intros s0 x. unfold wep_rem. eapply keepf_trans; [apply keepf_upd; intros r; apply Hf|apply keepf_nr_remove]. }
+    destruct cs; (eapply keepf_trans; [exact R|split; [auto|apply FW]]).
+  Qed.
+
   Lemma keepf_on_wep : forall s id cs, (forall s x, fld (set_weps s x) = fld s) -> (forall r w, proj (with_wep r w) = proj r) ->
     keepf s (on_wep s id cs).
   Proof.
@@ -84,6 +96,29 @@ Section Keep.
   Proof. intros FN s x. split; [auto|apply FN]. Qed.
   Lemma keepf_set_pools : (forall s x, fld (set_pools s x) = fld s) -> forall s x, keepf s (set_pools s x).
   Proof. intros FN s x. split; [auto|apply FN]. Qed.
+
+  Lemma keepf_on_node_forced : forall f s n v, (forall s x, fld (set_nodes s x) = fld s) -> (forall r h, proj (with_hosts r h) = proj r) ->
+    keepf s (on_node_forced f s n v).
+  Proof.
+    intros f s n v FN Hf. rewrite on_node_forced_eq. cbv zeta.
+    set (old := aget N.eqb (s_nodes s) n). set (new := option_map ninfo_of v).
+    assert (F1 : keepf s (st1 f s n old new)).
+    { unfold st1. destruct (N.eqb n me); [|apply keepf_refl]. cbv zeta. destruct (prefix_eqb _ _); [apply keepf_refl|].
+      unfold reflag. apply keepf_fold. intros s0 x. destruct (visit_node _); [|apply keepf_refl].
+      destruct (N.eqb n0 me); [apply keepf_refl|]. destruct (aget N.eqb (s_nodes s0) n0); [|apply keepf_refl].
+      destruct (Bool.eqb _ _); [apply keepf_refl|apply keepf_mark]. }
+    assert (F2 : forall s0, keepf s0 (st2 s0 n old)).
+    { intros s0. unfold st2. destruct old as [i|]; [|apply keepf_refl]. cbv zeta.
+      destruct (N.eqb (ni_addr i) 0); [apply (keepf_set_nodes FN)|]. eapply keepf_trans; [apply (keepf_set_nodes FN)|].
+      apply keepf_upd. intros r. apply Hf. }
+    assert (F3 : forall s0, keepf s0 (st3 s0 n new)).
+    { intros s0. unfold st3. destruct new as [i|]; [|apply keepf_refl]. cbv zeta.
+      destruct (N.eqb (ni_addr i) 0); [apply (keepf_set_nodes FN)|]. eapply keepf_trans; [apply (keepf_set_nodes FN)|].
+      apply keepf_upd. intros r. apply Hf. }
+    assert (F4 : forall s0, keepf s0 (st4 s0 n)).
+    { intros s0. unfold st4. apply keepf_fold. intros s1 x. destruct (N.eqb _ _); [apply keepf_mark|apply keepf_refl]. }
+    eapply keepf_trans; [exact F1|]. eapply keepf_trans; [apply F2|]. eapply keepf_trans; [apply F3|apply F4].
+  Qed.
 
   Lemma keepf_on_node : forall f s n v, (forall s x, fld (set_nodes s x) = fld s) -> (forall r h, proj (with_hosts r h) = proj r) ->
     keepf s (on_node f s n v).
@@ -157,3 +192,19 @@ Proof.
   - rewrite on_wep_nodes. rewrite dnodes_aget. cbn [d_nodes]. rewrite <- dnodes_aget. apply L.
 Qed.
 
+
+Lemma lk_n_fstep : forall s d x, lk_n s d -> lk_n (apply_fop true s x) (dstep d (match x with FOp _ o => o end)).
+Proof.
+  intros s d [force o] L. destruct force; [|now apply lk_n_step].
+  destruct o as [c v|c v|n v|id cs]; cbn [apply_fop]; try (now apply lk_n_step).
+  - intros m.
+    assert (FL : forall y, s_nodes (flush y) = s_nodes y) by (intros y; apply nodes_kept; apply keepf_flush; auto).
+    rewrite FL, dnodes_aget. cbn [dstep d_nodes]. unfold upd.
+    assert (D : option_map ninfo_of (aget N.eqb (match v with Some y => aset N.eqb (d_nodes d) n y | None => aremove N.eqb (d_nodes d) n end) m)
+                = if N.eqb n m then option_map ninfo_of v else aget N.eqb (s_nodes s) m).
+    { rewrite (L m), dnodes_aget. destruct v as [y|]; [rewrite agetN_aset|rewrite agetN_aremove]; destruct (N.eqb n m); reflexivity. }
+    rewrite D, on_node_forced_eq. cbv zeta. apply mid_nodes.
+  - intros m.
+    assert (FL : forall y, s_nodes (flush y) = s_nodes y) by (intros y; apply nodes_kept; apply keepf_flush; auto).
+    rewrite FL, on_wep_forced_nodes, dnodes_aget. cbn [dstep d_nodes]. rewrite <- dnodes_aget. apply L.
+Qed.
